@@ -83,7 +83,8 @@ HasWide(S, c, fuel) ==
 \* component every value plan yields a schema-valid document, so an XSD validator must accept it (clause xsd_valid).
 RECURSIVE PlainPs(_)
 PlainPs(ps) == \A i \in 1..Len(ps) :
-   CASE ps[i].k \in {"el", "ref"} -> TRUE
+   \* (a repeated member that must occur at least once is left empty by the plan `min`: not plain either)
+   CASE ps[i].k \in {"el", "ref"} -> ps[i].max = "1" \/ ps[i].min = 0
      [] ps[i].k = "seq" -> ps[i].min = 1 /\ ps[i].max = "1" /\ PlainPs(ps[i].ps)
      [] ps[i].k = "all" -> PMin(ps[i]) = 1 /\ PlainPs(ps[i].ps)
      [] OTHER -> FALSE
